@@ -229,20 +229,33 @@ DeliveryOk(data, fin) == data # <<>> \/ fin
    stream), the QUIC layer delivers what has been written in pieces of any size
    (Feed), streams interleaved in any order, FIN with the last piece or on its
    own.  Every byte string of the domain cut in every way is one path. *)
-CONSTANTS Cfg,        \* which streams: "req", "reqenc", "push", "two", "uni"
-          L,          \* longest request/push stream considered (bytes of frames)
-          Client      \* the receiving endpoint is a client
+CONSTANTS Plan,       \* set of configurations <<streams, L, client>> explored in one run:
+                      \*   streams: "req", "reqenc", "push", "two", "uni"
+                      \*   L: longest request/push stream considered (bytes of frames)
+                      \*   client: the receiving endpoint is a client
+          EnumSet     \* "enum-quick" / "enum-thorough": which RSeqs EnumSpec prints
 
-VARIABLES inp,        \* sid -> bytes the peer has written on the stream so far
+VARIABLES plan,       \* the configuration of this behaviour (chosen by Init, never changes)
+          inp,        \* sid -> bytes the peer has written on the stream so far
           pos,        \* sid -> bytes delivered so far
           finDone,    \* sid -> FIN delivered
           c,          \* the connection
           out         \* sid -> tokens of the events handed out so far
-vars == <<inp, pos, finDone, c, out>>
+vars == <<plan, inp, pos, finDone, c, out>>
+Cfg == plan[1]
+L == plan[2]
+Client == plan[3]
+\* the plans of the two tiers of check C14 (cfg: Plan <- PlanQuick), and the one
+\* a trace module needs (it only uses the operators)
+PlanQuick == {<<"req", 7, TRUE>>, <<"req", 6, FALSE>>, <<"push", 5, TRUE>>, <<"reqenc", 5, TRUE>>,
+              <<"two", 3, TRUE>>, <<"uni", 2, TRUE>>}
+PlanThorough == {<<"req", 10, TRUE>>, <<"req", 9, FALSE>>, <<"push", 8, TRUE>>, <<"push", 6, FALSE>>,
+                 <<"reqenc", 8, TRUE>>, <<"reqenc", 6, FALSE>>, <<"two", 4, TRUE>>, <<"uni", 4, TRUE>>, <<"uni", 3, FALSE>>}
+PlanTrace == {<<"req", 1, TRUE>>}
+PlanNone == {}
 
 \* ---- the frames the peer may write
-Dyn == IF Cfg \in {"reqenc", "two"} THEN {0, 1} ELSE {0}
-Descs ==
+DescsWith(Dyn) ==
   {[k |-> k, l2 |-> l2, n |-> n, dyn |-> 0] : k \in {"D", "D2"}, l2 \in BOOLEAN, n \in 0..3}
   \cup {[k |-> k, l2 |-> l2, n |-> n, dyn |-> d] : k \in {"H", "H2"}, l2 \in BOOLEAN, n \in 1..2, d \in Dyn}
   \cup {[k |-> "P", l2 |-> l2, n |-> n, dyn |-> d] : l2 \in BOOLEAN, n \in 2..3, d \in Dyn}
@@ -264,8 +277,10 @@ FrameBytes(d) == TypeBytes(d.k)
                  \o (IF d.k = "W" THEN (IF d.l2 THEN EncVar2(9) ELSE <<9>>)        \* session id 9
                      ELSE IF d.l2 THEN EncVar2(d.n) ELSE EncVar(d.n))
                  \o Body(d)
-Frames    == {FrameBytes(d) : d \in Descs}
-CtlFrames == {FrameBytes(d) : d \in CtlDescs}
+FramesStatic == {FrameBytes(d) : d \in DescsWith({0})}        \* no block refers to the dynamic table
+FramesDyn    == {FrameBytes(d) : d \in DescsWith({0, 1})}     \* some do (configurations with an encoder stream)
+Frames       == IF Cfg \in {"reqenc", "two"} THEN FramesDyn ELSE FramesStatic
+CtlFrames    == {FrameBytes(d) : d \in CtlDescs}
 
 EncPayload == <<1, 2>>
 ENC == 7                                       \* the peer's QPACK encoder stream in "reqenc" and "two"
@@ -286,7 +301,8 @@ Growth(sid) ==
     [] OTHER -> Frames
 
 Sids == DOMAIN inp
-Init == /\ inp \in Starts
+Init == /\ plan \in Plan
+        /\ inp \in Starts
         /\ pos = [s \in DOMAIN inp |-> 0]
         /\ finDone = [s \in DOMAIN inp |-> FALSE]
         /\ c = NewConn(Client, DOMAIN inp, IF ENC \in DOMAIN inp THEN Len(EncPayload) ELSE 0)
@@ -297,7 +313,7 @@ Extend(sid, f) ==
   /\ f \in Growth(sid)
   /\ Len(inp[sid]) + Len(f) <= L + Base
   /\ inp' = [inp EXCEPT ![sid] = @ \o f]
-  /\ UNCHANGED <<pos, finDone, c, out>>
+  /\ UNCHANGED <<plan, pos, finDone, c, out>>
 
 Feed(sid, n, f) ==
   /\ n <= Len(inp[sid]) - pos[sid]
@@ -310,7 +326,7 @@ Feed(sid, n, f) ==
        /\ out' = [s \in Sids |-> out[s] \o Normalise(OfStream(r.evs, s))]
   /\ pos' = [pos EXCEPT ![sid] = @ + n]
   /\ finDone' = [finDone EXCEPT ![sid] = @ \/ f]
-  /\ UNCHANGED inp
+  /\ UNCHANGED <<plan, inp>>
 Next == \E sid \in Sids :
           \/ \E f \in Growth(sid) : Extend(sid, f)
           \/ \E n \in 0..(L + Base), f \in BOOLEAN : Feed(sid, n, f)
@@ -339,9 +355,9 @@ RCore ==
   \cup {[k |-> "W", l2 |-> FALSE, n |-> 1, dyn |-> 0]}
 Code(d) == KindIx(d.k) * 1000 + (IF d.l2 THEN 100 ELSE 0) + d.n * 10 + d.dyn
 SeqsUpTo(D, K) == UNION {[1..k -> D] : k \in 1..K}
-RSeqs == CASE Cfg = "enum-quick"    -> SeqsUpTo(RFull, 2) \cup [1..3 -> RCore]
-           [] Cfg = "enum-thorough" -> SeqsUpTo(RFull, 3) \cup [1..4 -> RCore]
-EnumInit == /\ inp = <<>> /\ pos = <<>> /\ finDone = <<>> /\ c = <<>> /\ out = <<>>
+RSeqs == CASE EnumSet = "enum-quick"    -> SeqsUpTo(RFull, 2) \cup [1..3 -> RCore]
+           [] EnumSet = "enum-thorough" -> SeqsUpTo(RFull, 3) \cup [1..4 -> RCore]
+EnumInit == /\ plan = <<>> /\ inp = <<>> /\ pos = <<>> /\ finDone = <<>> /\ c = <<>> /\ out = <<>>
             /\ \A fs \in RSeqs : PrintT(<<"SEQ", [i \in DOMAIN fs |-> Code(fs[i])]>>)
 EnumSpec == EnumInit /\ [][UNCHANGED vars]_vars
 
